@@ -55,6 +55,8 @@ type Leaf struct {
 	Reached  []string
 	Effects  []string
 	GWrites  []string
+	Shadow   []*Term
+	WDefs    map[*Term]*Term
 	DetObs   []Obs
 }
 
@@ -101,6 +103,8 @@ type Path struct {
 	obligs      []*Oblig
 	keptUnknown int
 	inInit      bool
+	shadow      []*Term          // natively evaluable equivalents of witness-carrying conjuncts
+	wdefs       map[*Term]*Term // witness variable -> defining term
 	detObs      []Obs
 	exactTables bool
 	unwindAssume bool
@@ -257,6 +261,7 @@ func newPath(ex *Explorer, ss *SolverSet, prefix []int) *Path {
 		choices: map[string]int{},
 		globals: map[*ssa.Global]*Value{},
 		decomp:  map[*Term][]decompEntry{},
+		wdefs:   map[*Term]*Term{},
 		summaries: map[string]bool{}, orderInsens: map[string]bool{},
 		mapOrderAll: true,
 		unwind:  12,
@@ -307,6 +312,8 @@ func (p *Path) execute() (leaf *Leaf) {
 		leaf.Reached = p.reached
 		leaf.Effects = p.effects
 		leaf.GWrites = p.gwrites
+		leaf.Shadow = p.shadow
+		leaf.WDefs = p.wdefs
 		leaf.DetObs = p.detObs
 	}()
 	p.runInit()
@@ -572,6 +579,14 @@ func (p *Path) branchOrder(c *Term) bool {
 	opts := []*Term{fLT, fEQ, fGT}
 	ch := p.decide(3, "order", func(i int) bool { return p.feasibleWith(opts[i]) })
 	p.assume(opts[ch])
+	switch ch {
+	case 0:
+		p.shadow = append(p.shadow, mkApp("str.<", SBool, a, b))
+	case 1:
+		p.shadow = append(p.shadow, mkEq(a, b))
+	default:
+		p.shadow = append(p.shadow, mkApp("str.<", SBool, b, a))
+	}
 	res := ch == 0
 	if res {
 		p.pcSet[lt.id] = true
@@ -711,6 +726,11 @@ func solveModel(ss *SolverSet, asserts []*Term, names []string, nts []*Term, ext
 var niceStrings = []string{"a", "b", "c", "x", "y", "", "\n", "a\nb", "p", "q", "a/d", "b/d", "c/d", "d"}
 
 func solveModelB(ss *SolverSet, base []*Term, names []string, nts []*Term, extra []*Term, to int, useCVC bool, deadline time.Time, maxRounds int) ModelResult {
+	return solveModelS(ss, base, nil, nil, names, nts, extra, to, useCVC, deadline, maxRounds)
+}
+
+// solveModelS: as solveModelB; shadow/wdefs make witness-carrying conjuncts evaluable for sampling.
+func solveModelS(ss *SolverSet, base []*Term, shadow []*Term, wdefs map[*Term]*Term, names []string, nts []*Term, extra []*Term, to int, useCVC bool, deadline time.Time, maxRounds int) ModelResult {
 	res := ModelResult{}
 	total := 0
 	named := map[*Term]bool{}
@@ -724,7 +744,7 @@ func solveModelB(ss *SolverSet, base []*Term, names []string, nts []*Term, extra
 			// cheap first attempt: sample the finite domain of preferred inputs and validate each
 			// candidate with the native evaluator; the solvers take over when this finds nothing
 			sampled = true
-			if m, ex, ok := sampleModel(base, nts, extra, 4000); ok {
+			if m, ex, ok := sampleModel(base, shadow, wdefs, nts, extra, 4000); ok {
 				res.Status = "sat"
 				res.By = "sampling over preferred inputs, validated by native evaluation"
 				res.Model = map[string]string{}
@@ -988,7 +1008,7 @@ var sampleInts = []string{"0", "1", "2", "3", "255", "-1", "65", "128", "1000000
 // sampleModel searches the finite domain of preferred inputs for an assignment that makes every
 // assertion true under native evaluation (real library functions). It is a counterexample /
 // witness finder only: nothing is ever concluded from its failure.
-func sampleModel(base []*Term, nts []*Term, extra []*Term, tries int) ([]string, []string, bool) {
+func sampleModel(base []*Term, shadow []*Term, wdefs map[*Term]*Term, nts []*Term, extra []*Term, tries int) ([]string, []string, bool) {
 	vars, ufs, seen := map[*Term]bool{}, map[*Term]bool{}, map[*Term]bool{}
 	for _, a := range base {
 		a.collect(vars, ufs, seen)
@@ -1015,6 +1035,12 @@ func sampleModel(base []*Term, nts []*Term, extra []*Term, tries int) ([]string,
 							break
 						}
 					}
+					for t := range wdefs {
+						if t.id == id {
+							found = true
+							break
+						}
+					}
 					if !found {
 						ok = false
 						break
@@ -1025,7 +1051,7 @@ func sampleModel(base []*Term, nts []*Term, extra []*Term, tries int) ([]string,
 				kept = append(kept, a)
 			}
 		}
-		base = kept
+		base = append(kept, shadow...)
 	}
 	h := uint64(1469598103934665603)
 	for _, t := range nts {
@@ -1052,6 +1078,7 @@ func sampleModel(base []*Term, nts []*Term, extra []*Term, tries int) ([]string,
 	}
 	for try := 0; try < tries; try++ {
 		env := newEvalEnv()
+		env.defs = wdefs
 		vals := make([]string, len(nts))
 		for i, t := range nts {
 			switch t.Sort {
@@ -1082,7 +1109,7 @@ func (p *Path) refineAndRecord(ob *Oblig, neg *Term) {
 	if p.tier > 0 {
 		budget = 150 * time.Second
 	}
-	r := solveModelB(p.ss, asserts, names, nts, nil, p.ex.obligTO/2, p.ex.useCVC, time.Now().Add(budget), 10)
+	r := solveModelS(p.ss, asserts, p.shadow, p.wdefs, names, nts, nil, p.ex.obligTO/2, p.ex.useCVC, time.Now().Add(budget), 10)
 	ob.Solvers = r.Solvers
 	switch r.Status {
 	case "unsat":
